@@ -89,8 +89,8 @@ def run_tlc(*a, **kw):
 
 def validate(module, cfg, traces, timeout=3600):
     """Batch trace validation by TLC.  Returns (result, verdicts {tid: (pos, clause)}, drifts)."""
-    r = run_tlc(module, cfg, workers=1, files={"traces.json": json.dumps(traces)},
-                env={"TRACE_FILE": "traces.json"}, timeout=timeout)
+    text = "[" + ",".join(t if isinstance(t, str) else json.dumps(t) for t in traces) + "]"
+    r = run_tlc(module, cfg, workers=1, files={"traces.json": text}, env={"TRACE_FILE": "traces.json"}, timeout=timeout)
     verdicts = {}
     for t in tlc.tagged_tuples(r.out, "VERDICT"):
         if len(t) != 3 or t[0] in verdicts:
@@ -872,44 +872,51 @@ def _scenario_nontrivial(trace):
 
 
 def _pm_shard(args):
-    """Replay a batch of scenarios / random walks on real managers, validate the traces by TLC."""
+    """Replay a batch of scenarios / random walks on real managers, validate the traces by TLC.
+    Everything that outlives one scenario is kept as JSON text: gc.collect() is this part's
+    observation point and must not have to walk over thousands of parked dicts."""
     scen, seed, nrandom, maxlen = args
-    scen = [json.loads(_unq(x)) if isinstance(x, str) else x for x in scen]
-    items = [(d["np"], d["hist"], "scenario") for d in scen]
     rng = random.Random(seed)
-    for _ in range(nrandom):
-        items.append((rng.choice([1, 2, 2, 3]), random_pm_walk(rng, rng.randint(3, maxlen)), "random"))
-    traces, exp_bad, nontriv = [], [], 0
+    traces, tops, inputs, exp_bad, nontriv, events, sample = [], [], [], [], 0, 0, None
     t_run = time.time()
-    for np, hist, kind in items:
+    for i in range(len(scen) + nrandom):
+        if i < len(scen):
+            d = json.loads(_unq(scen[i])) if isinstance(scen[i], str) else scen[i]
+            np, hist, kind = d["np"], d["hist"], "scenario"
+        else:
+            np, hist, kind = rng.choice([1, 2, 2, 3]), random_pm_walk(rng, rng.randint(3, maxlen)), "random"
         tr = run_pm_scenario(np, hist)
-        traces.append(tr)
         if _scenario_nontrivial(tr):
             nontriv += 1
         if kind == "scenario":
             mm = compare_expected(hist, tr)
             if mm and len(exp_bad) < 5:
-                exp_bad.append((mm[:3], np, hist))
+                exp_bad.append((mm[:3], np, _strip(hist)))
+        events += len(tr["ev"])
+        tops.append(max([1] + [max(e["ref"], e["h"], e["p"], e["s"]) for e in tr["ev"]]))
+        if sample is None:
+            sample = {"np": np, "ev": tr["ev"][:4]}
+        traces.append(json.dumps(tr))
+        inputs.append(json.dumps({"kind": "pmscenario", "np": np, "ops": _strip(hist)}))
     t_run = time.time() - t_run
     bad, drift, ndrift = [], [], 0
-    step = 500
-    nsc = len(scen)
+    step, nsc = 1000, len(scen)
     for a, b in [(x, min(x + step, nsc)) for x in range(0, nsc, step)] + \
                 [(x, min(x + step, len(traces))) for x in range(nsc, len(traces), step)]:
-        chunk = traces[a:b]
-        top = max([1] + [max(e["ref"], e["h"], e["p"], e["s"]) for t in chunk for e in t["ev"]])
+        top = max(tops[a:b])
         if top > 47:
             raise tlc.MachineryError("trace uses ids beyond the monitor's range")
-        r, verdicts, drifts = validate("PoolCache_Trace", PC_TRACE_CFG.replace("MaxOps = 48", "MaxOps = %d" % (top + 1)), chunk)
+        r, verdicts, drifts = validate("PoolCache_Trace", PC_TRACE_CFG.replace("MaxOps = 48", "MaxOps = %d" % (top + 1)),
+                                       traces[a:b])
         ndrift += len(drifts)
-        drift += [(list(d), items[a + d[0] - 1][0], _strip(items[a + d[0] - 1][1])) for d in drifts[:3]]
+        for dd in drifts[:3]:
+            case = json.loads(inputs[a + dd[0] - 1])
+            drift.append((list(dd), case["np"], case["ops"]))
         for tid, (pos, clause) in verdicts.items():
             if clause != "ok" and len(bad) < 10:
-                np, hist, kind = items[a + tid - 1]
-                bad.append((clause, pos, {"kind": "pmscenario", "np": np, "ops": _strip(hist)}))
-    return {"n": len(traces), "events": sum(len(t["ev"]) for t in traces), "bad": bad, "drift": drift[:3],
-            "ndrift": ndrift, "exp_bad": exp_bad, "nontriv": nontriv, "t_run": t_run,
-            "sample": traces[0] if traces else None}
+                bad.append((clause, pos, json.loads(inputs[a + tid - 1])))
+    return {"n": len(traces), "events": events, "bad": bad, "drift": drift[:3], "ndrift": ndrift, "exp_bad": exp_bad,
+            "nontriv": nontriv, "t_run": t_run, "sample": sample}
 
 
 def _strip(hist):
@@ -1233,10 +1240,10 @@ class _PartB:
         rep.extra["conc_programs_emitted"] = len(progs)
         rep.extra["conc_outcomes_emitted"] = sum(len(v) for v in progs.values())
         keys = sorted(progs)
-        sel = rng.sample(keys, min(112 if quick else 1200, len(keys)))
+        sel = rng.sample(keys, min(112 if quick else 800, len(keys)))
         jobs = [([(k, progs[k]) for k in ch], 2, 170 if quick else 1500, 2 if quick else 10, rep.seed, False)
                 for ch in _chunks(sel, NPROC * (1 if quick else 3))]
-        rnd = random_container_programs(rng, 32 if quick else 320)
+        rnd = random_container_programs(rng, 32 if quick else 240)
         jobs += [([(k, None) for k in ch], 1, 30 if quick else 200, 10 if quick else 60, rep.seed + 7, True)
                  for ch in _chunks(rnd, NPROC // 2 if quick else NPROC)]
         self.nprog = len(sel) + len(rnd)
@@ -1329,9 +1336,9 @@ class _PartC:
                 rep.drift.append(f"PoolCache_Trace {d} num_pools={np_} scenario {hist}")
             for mm, np_, hist in o["exp_bad"]:
                 rep.drift.append(f"PoolManager observation differs from the model's expectation: {mm} "
-                                 f"(num_pools={np_}, scenario {_strip(hist)})")
+                                 f"(num_pools={np_}, scenario {hist})")
         if couts and couts[0]["sample"]:
-            rep.sample({"pm_trace": {"np": couts[0]["sample"]["np"], "ev": couts[0]["sample"]["ev"][:4]}})
+            rep.sample({"pm_trace": couts[0]["sample"]})
         if sum(o["nontriv"] for o in couts) == 0:
             raise tlc.MachineryError("no scenario evicted a pool that was still in use")
         rep.extra["race_programs"] = len(self.rprogs)
